@@ -29,6 +29,7 @@ def run(chk):
     chk.rule('C13-R3', 'the particle arrays are not modified in place on the calc_power path, except by the idempotent periodic wrap (needed for cross == auto with the same array, and for repeated calls)', 4)
     chk.rule('C13-R2', 'kernels on the calc_power path: every store under prange is iteration-, thread- or cursor-private', 8)
     chk.rule('C13-R4', 'the in-place normalisation passes (normalize_field, _normalize) update every cell of the mesh', 2)
+    chk.rule('C13-R5', 'get_raw_power is the Hermitian product: the cross branch with field2 = field equals the auto branch, and a common phase factor (a whole-cell translation of both fields) cancels', 2)
     chk.assume('termination-insensitive: a raise/assert that depends on the particles is not counted as a dependence of the outputs')
     chk.assume('library calls (rfftn, numpy) are modelled as: result values and shape depend on the values and shapes of all arguments')
     chk.assume('permutation / translation / cross=auto invariance are not decided (numerical identities of the pipeline)')
@@ -129,3 +130,137 @@ def run(chk):
                 chk.unknown('C13-R4', PS, q, f'loop at line {lp.lineno} covers the flattened field', detail, node=lp)
             else:
                 chk.check(verdict == 'PROVEN', 'C13-R4', PS, q, f'loop over {X} covers the flattened field', detail, detail, node=lp)
+    # ---- R5: estimator-level identities over complex algebra (a = ar + i ai, b = br + i bi as exact polynomials)
+    _raw_power(chk, src)
+
+
+def _raw_power(chk, src):
+    from ..core.poly import Poly
+    fn = src.func(PS, 'get_raw_power')
+    params = [a.arg for a in fn.args.args]
+    if len(params) != 2:
+        raise AnalysisError('get_raw_power: signature changed')
+    A = (Poly.sym('ar'), Poly.sym('ai'))
+    B = (Poly.sym('br'), Poly.sym('bi'))
+
+    class NotUnderstood(Exception):
+        pass
+
+    def ev(e, env):
+        # complex values are pairs (re, im); real values are (re, 0)
+        Z = Poly()
+        if isinstance(e, ast.Name):
+            if e.id in env:
+                return env[e.id]
+            raise NotUnderstood(e.id)
+        if isinstance(e, ast.Constant) and isinstance(e.value, (int, float)):
+            return (Poly.const(e.value) if isinstance(e.value, int) else Poly.from_float_literal(e.value), Z)
+        if isinstance(e, ast.Attribute) and e.attr in ('real', 'imag'):
+            v = ev(e.value, env)
+            return (v[0] if e.attr == 'real' else v[1], Z)
+        if isinstance(e, ast.Call):
+            d = dotted(e.func)
+            if d in ('np.conj', 'np.conjugate') and len(e.args) == 1:
+                v = ev(e.args[0], env)
+                return (v[0], -v[1])
+            if isinstance(e.func, ast.Attribute) and e.func.attr in ('conj', 'conjugate') and not e.args:
+                v = ev(e.func.value, env)
+                return (v[0], -v[1])
+            if d in ('np.abs', 'np.absolute', 'abs') and len(e.args) == 1:
+                v = ev(e.args[0], env)
+                return ('abs', v[0] * v[0] + v[1] * v[1])
+            if d in ('np.real', 'np.imag') and len(e.args) == 1:
+                v = ev(e.args[0], env)
+                return (v[0] if d == 'np.real' else v[1], Z)
+            raise NotUnderstood(unparse(e)[:40])
+        if isinstance(e, ast.BinOp):
+            if isinstance(e.op, ast.Pow) and isinstance(e.right, ast.Constant) and e.right.value == 2:
+                v = ev(e.left, env)
+                if v[0] == 'abs':
+                    return (v[1], Z)
+                return (v[0] * v[0] - v[1] * v[1], v[0] * v[1] * 2)
+            a, b = ev(e.left, env), ev(e.right, env)
+            if a[0] == 'abs' or b[0] == 'abs':
+                raise NotUnderstood('|x| outside a square')
+            if isinstance(e.op, ast.Add):
+                return (a[0] + b[0], a[1] + b[1])
+            if isinstance(e.op, ast.Sub):
+                return (a[0] - b[0], a[1] - b[1])
+            if isinstance(e.op, ast.Mult):
+                return (a[0] * b[0] - a[1] * b[1], a[0] * b[1] + a[1] * b[0])
+            raise NotUnderstood(unparse(e)[:40])
+        if isinstance(e, ast.UnaryOp) and isinstance(e.op, ast.USub):
+            v = ev(e.operand, env)
+            return (-v[0], -v[1])
+        raise NotUnderstood(unparse(e)[:40])
+
+    def run(second_given, a, b):
+        env = {params[0]: a, params[1]: b if second_given else None}
+
+        def block(stmts):
+            for st in stmts:
+                if isinstance(st, ast.Expr):
+                    continue
+                if isinstance(st, ast.If):
+                    t = unparse(st.test)
+                    if t == f'{params[1]} is not None':
+                        r = block(st.body if second_given else st.orelse)
+                    elif t == f'{params[1]} is None':
+                        r = block(st.orelse if second_given else st.body)
+                    else:
+                        raise NotUnderstood(t)
+                    if r is not None:
+                        return r
+                    continue
+                if isinstance(st, ast.Assign) and len(st.targets) == 1 and isinstance(st.targets[0], ast.Name):
+                    env[st.targets[0].id] = ev(st.value, env)
+                    continue
+                if isinstance(st, ast.Return):
+                    return ev(st.value, env)
+                raise NotUnderstood(unparse(st)[:40])
+            return None
+        return block(fn.body)
+    try:
+        auto = run(False, A, None)
+        cross_same = run(True, A, A)
+        cross = run(True, A, B)
+    except NotUnderstood as e:
+        chk.unknown('C13-R5', PS, 'get_raw_power', 'estimator evaluated over complex algebra', f'not understood: {e}', node=fn)
+        return
+    Z = Poly()
+    ok1 = auto is not None and cross_same is not None and auto[0] == cross_same[0] and auto[1] == Z and cross_same[1] == Z
+    chk.check(ok1, 'C13-R5', PS, 'get_raw_power', 'cross power of a field with itself == auto power (real)', f'{auto[0] if auto else None}',
+              f'auto branch gives {auto}, cross branch with field2 = field gives {cross_same}: cross != auto for the same particles', node=fn)
+    # common phase: a -> a e^{i t}, b -> b e^{i t} with c = cos t, s = sin t, s^2 = 1 - c^2
+    c, s_ = Poly.sym('c'), Poly.sym('s')
+    rot = lambda z: (z[0] * c - z[1] * s_, z[0] * s_ + z[1] * c)
+    try:
+        cross_rot = run(True, rot(A), rot(B))
+        auto_rot = run(False, rot(A), None)
+    except NotUnderstood as e:
+        chk.unknown('C13-R5', PS, 'get_raw_power', 'phase invariance', f'not understood: {e}', node=fn)
+        return
+
+    def reduce(p):
+        # s^2 -> 1 - c^2
+        for _ in range(6):
+            out, changed = Poly(), False
+            for m, co in p.t.items():
+                d = dict(m)
+                k = d.get('s', 0)
+                if k >= 2:
+                    d['s'] = k - 2
+                    if d['s'] == 0:
+                        del d['s']
+                    base = Poly({tuple(sorted(d.items())): co})
+                    out = out + base * (Poly.const(1) - c * c)
+                    changed = True
+                else:
+                    out = out + Poly({m: co})
+            p = out
+            if not changed:
+                break
+        return p
+    ok2 = cross is not None and reduce(cross_rot[0] - cross[0]) == Z and reduce(auto_rot[0] - auto[0]) == Z
+    chk.check(ok2, 'C13-R5', PS, 'get_raw_power', 'a phase factor common to both fields cancels (whole-cell translations leave every mode power unchanged)', '',
+              f'the mode power changes under a common phase: cross = {cross[0] if cross else None}: translating all particles by whole cells would change the estimate', node=fn)
